@@ -170,7 +170,7 @@ pub proof fn filter_tag_numbers_rfc4511()
 //@ sub "IResult<&[u8], Vec<u8>>" => "IResult<&'a [u8], Vec<u8>>"
 //@ sub "verify(be_u8, is_value_char)" => "verify_val(be_u8, is_value_char)"
 //@ ret r
-//@ closure at="|| (Unescaper::Value(0), Vec::new())" params="" ret="(a0: (Unescaper, Vec<u8>))"
+//@ closure at="|| (Unescaper::Value(" params="" ret="(a0: (Unescaper, Vec<u8>))"
                 ensures a0.0 == Unescaper::Value(0), a0.1@ == Seq::<u8>::empty()
 //@ closure at="|(mut u, mut vec): (Unescaper, Vec<_>), c: u8|" destructure="acc" params="acc: (Unescaper, Vec<u8>), c: u8" ret="(a2: (Unescaper, Vec<u8>))"
                 ensures wf_un(acc.0) ==> (a2.0 == feed_spec(acc.0, c) && wf_un(a2.0) && a2.1@ == (if a2.0 is Value { acc.1@.push(a2.0->Value_0) } else { acc.1@ })), //# C08+C09.value_bytes_are_the_unescaped_bytes_in_order
@@ -312,7 +312,7 @@ impl EnumFold for Vec<Vec<u8>> {
 //@ rules +R11
 //@ sub "fn eq(i: &[u8])" => "fn eq<'a>(i: &'a [u8])"
 //@ sub "IResult<&[u8], Tag>" => "IResult<&'a [u8], Tag>"
-//@ arg ".fold(" => "false, &v"
+//@ carg "|acc, (n, ve)|" => "&v"
 //@ sub ".iter().enumerate().fold(" => ".verif_enum_fold("
 //@ sub "mid_final.into_iter().enumerate()" => "verif_enumerate(mid_final).into_iter()"
 //@ sub "let mut inner = vec![];" => "let mut inner: Vec<Tag> = vec![];"
